@@ -242,7 +242,7 @@ class Interp:
         k = t["k"]
         if k in ("int", "bool", "char"):
             return Scalar(self.fresh(("top",) + key, tid, S))
-        if depth > 8:
+        if depth > 12:
             return Opaque(tid)
         if k in ("ref", "ptr"):
             cell = ("g",) + key
